@@ -100,7 +100,7 @@ def lookup(kind: int, e0: int, e1: int, e2: int, n: int, spec: int, ssc: bool, r
 
 
 # names that hit the patterns of two asset kinds at once
-MULTI_REPS = ["banner bg.png", "cdtitle bn.png", "Jacket-CD.png", "readme.txt", "AlbumArt bg.JPG"]
+MULTI_REPS = ["banner bg.png", "cdtitle bn.png", "Jacket-CD.png", "readme.txt", "AlbumArt bg.JPG", "ogg", "PNG"]   # the last two: names that spell an extension but have none
 
 
 def lookup_multi(kind: int, e0: int, e1: int, n: int, spec: int, ssc: bool) -> bool:
@@ -210,7 +210,7 @@ def empty_simfile(kind: int, has_match: bool) -> bool:
     return got == (d + "/" + nm if has_match else None)
 
 
-PACK_IMGS = ["b.png", "a.PNG", "c.jpg", "d.jpeg", "e.gif", "f.bmp", "notes.txt", "song"]
+PACK_IMGS = ["b.png", "a.PNG", "c.jpg", "d.jpeg", "e.gif", "f.bmp", "notes.txt", "song", "gif", "PNG"]   # the last two: names that spell an extension but have none
 PRIORITY = [".png", ".jpg", ".jpeg", ".gif", ".bmp"]
 
 
